@@ -4,7 +4,7 @@
 dir="$1"
 for out in "$dir"/C*.out; do
   id=$(basename "$out" .out)
-  [ -f "$out/patch.diff" ] || continue
+  [ -f "$out/patch.diff" ] && [ -f "$out/demo_test.go" ] && [ -f "$out/notes.md" ] || continue
   [ -f "$out/.filed" ] && continue
   git -C /repo worktree remove --force "$dir/$id" >/dev/null 2>&1
   k=1; while [ -d /verif/seeded/$id-m$k ]; do k=$((k+1)); done
